@@ -563,7 +563,7 @@ def c10_k3(ctx):
         n += 1
         mode = [world_str(w) for w in fl.at_stmt(b, j)]
         key = "process_pdu:eof-arm-%s" % ("unack" if any("Unacknowledged" in m for m in mode) else "ack")
-        res = _error_side(ctx, f, fl, b)
+        res = _error_side(ctx, f, fl, b, src="%s.condition" % mc.group(1))
         if res is None:
             yield bad("C10-K3", key, at(f, s["span"]["line"]), "no `condition == NoError` test follows the assignment of the EOF condition")
             continue
@@ -578,7 +578,7 @@ def c10_k3(ctx):
         raise Anchor("C10-K3", "`self.condition = eof.condition` in process_pdu")
 
 
-def _error_side(ctx, f, fl, start):
+def _error_side(ctx, f, fl, start, src=None):
     """From block `start`, find the first switch testing self.condition against NoError.
     Returns (line, finalisation sites reachable on the != NoError side, whether some
     path on that side returns without calling _cancel)."""
@@ -592,7 +592,8 @@ def _error_side(ctx, f, fl, start):
         t = f.blocks[b]["term"]
         if t["k"] == "switch":
             txt = expr_str(fl.eb.operand(t["discr"]))
-            if "self.condition" in txt and "NoError" in txt and ("eq(" in txt or "ne(" in txt):
+            # the test may be made on the field just assigned or on the value it was assigned from
+            if ("self.condition" in txt or (src is not None and src in txt)) and "NoError" in txt and ("eq(" in txt or "ne(" in txt):
                 is_eq = "eq(" in txt
                 tgt_false = t["targets"][0][1]  # value 0 = test false
                 tgt_true = t["otherwise"]
